@@ -312,7 +312,7 @@ Proof.
   destruct (handle_exception_fails k suite (rs_t r) G) as [A B]. rewrite A. auto.
 Qed.
 
-Lemma run_setup_funcs_verdict env pairs : forall r kept, rverdict r -> rverdict (fst (run_setup_funcs env pairs r kept)).
+Lemma run_setup_funcs_verdict env suite pairs : forall r kept, rverdict r -> rverdict (fst (run_setup_funcs env suite pairs r kept)).
 Proof.
   induction pairs as [|[[f|] td] rest IH]; intros r kept R; cbn [run_setup_funcs]; auto.
   pose proof (call_sfun_verdict env f r R) as R1.
@@ -321,7 +321,7 @@ Proof.
   - destruct (rs_failed r1); cbn [fst]; auto.
 Qed.
 
-Lemma run_teardown_list_verdict env tds : forall r, rverdict r -> rverdict (run_teardown_list env tds r).
+Lemma run_teardown_list_verdict env suite tds : forall r, rverdict r -> rverdict (run_teardown_list env suite tds r).
 Proof.
   induction tds as [|[f|] rest IH]; intros r R; cbn [run_teardown_list]; auto.
   destruct (rs_died r); auto.
@@ -352,9 +352,9 @@ Proof.
   { unfold rverdict, r0. cbn [rs_t rs_failed rs_children].
     assert (P0 : pending_clean (fresh_cursor l [AtFire (RTestStart p)])) by reflexivity.
     destruct (set_step_fails SdSetupTest [] _ P0) as [A B]. rewrite A. split; auto. }
-  assert (R1 : rverdict (fst (if any_setup pairs then run_setup_funcs env pairs r0 [] else (r0, only_teardowns pairs)))).
+  assert (R1 : rverdict (fst (if any_setup pairs then run_setup_funcs env (Some suite) pairs r0 [] else (r0, only_teardowns pairs)))).
   { destruct (any_setup pairs); [apply run_setup_funcs_verdict; exact R0|exact R0]. }
-  destruct (if any_setup pairs then run_setup_funcs env pairs r0 [] else (r0, only_teardowns pairs)) as [r1 kept] eqn:E1.
+  destruct (if any_setup pairs then run_setup_funcs env (Some suite) pairs r0 [] else (r0, only_teardowns pairs)) as [r1 kept] eqn:E1.
   cbn [fst] in R1.
   destruct (rs_died r1) eqn:D1. { unfold finish; cbn [to_res]; rewrite D1; congruence. }
   set (r2 := if rs_failed r1 then r1 else _).
@@ -395,8 +395,8 @@ Proof.
     assert (P0 : pending_clean (hold start (fresh_cursor l []))).
     { unfold pending_clean, hold. simpl. rewrite Fs. reflexivity. }
     destruct (set_step_fails d [] _ P0) as [A B]. rewrite A. split; auto. }
-  pose proof (run_setup_funcs_verdict env pairs r0 [] R0) as R1.
-  destruct (run_setup_funcs env pairs r0 []) as [r kept]. cbn [fst] in R1.
+  pose proof (run_setup_funcs_verdict env None pairs r0 [] R0) as R1.
+  destruct (run_setup_funcs env None pairs r0 []) as [r kept]. cbn [fst] in R1.
   destruct (rs_died r) eqn:D. { unfold finish; cbn [to_res]; rewrite D; congruence. }
   intros _. apply finish_verdict; auto.
   destruct R1 as [V1 G1]. unfold rverdict; cbn [rs_t rs_failed rs_children].
